@@ -276,6 +276,52 @@ pub fn configs(prop: &str, thorough: bool) -> Vec<(Cfg, Option<usize>)> {
                 c.hooked = true;
                 out.push((c, None));
             }
+            // (a2) the group changes in the very block in which the proposal is opened (before and after the Propose):
+            // whatever the proposal recorded at creation stays what it is, through later votes by members the change
+            // removed or re-weighted
+            {
+                let mut c = Cfg::base("C05/flex/pct51/Anyone/height/group-changes-in-the-opening-block", true);
+                c.props = p.clone();
+                c.actors = vec!["A", "B", "C", "X", "ADM"];
+                c.group_admin = 4;
+                c.voters = vec![(0, 1), (1, 5), (2, 1)];
+                c.th = Th::Pct(pct(510_000_000));
+                c.max_props = 1;
+                c.kinds = vec![PK::Tag1];
+                c.votes = vec![VoteA::Yes, VoteA::No];
+                c.proposers = vec![0];
+                c.voters_acting = vec![1, 2];
+                c.executors = vec![3];
+                c.closers = vec![3];
+                c.blocks = 2;
+                c.edits = vec![GroupEdit { remove: vec![1], add: vec![] }, GroupEdit { remove: vec![], add: vec![(2, 4)] }];
+                c.editors = vec![4];
+                c.max_edits = 1;
+                c.hooked = true;
+                out.push((c, None));
+            }
+            // (a3) an Abstain that tips the outcome (the base of a percentage shrinks): what the queries report and
+            // what Execute admits must move together
+            for flex in [false, true] {
+                for (tn, th) in [("pct50", Th::Pct(pct(500_000_000))), ("q50-25", Th::Quorum { t: pct(500_000_000), q: pct(250_000_000) })] {
+                    if !thorough && flex != (tn == "pct50") {
+                        continue;
+                    }
+                    let mut c = Cfg::base(&format!("C05/{}/{tn}/Anyone/height/abstain-tips-the-outcome", if flex { "flex" } else { "fixed" }), flex);
+                    c.props = p.clone();
+                    c.voters = vec![(0, 1), (1, 1), (2, 2)];
+                    c.th = th;
+                    c.max_props = 1;
+                    c.kinds = vec![PK::Tag1];
+                    c.votes = vec![VoteA::Yes, VoteA::No, VoteA::Abstain, VoteA::Veto];
+                    c.proposers = vec![0];
+                    c.voters_acting = vec![1, 2];
+                    c.executors = vec![3];
+                    c.closers = vec![3];
+                    c.blocks = 3;
+                    out.push((c, None));
+                }
+            }
             // (a'') a configured deposit must not change what Execute relays
             for cw20 in [false, true] {
                 if !thorough && cw20 {
@@ -602,6 +648,26 @@ pub fn configs(prop: &str, thorough: bool) -> Vec<(Cfg, Option<usize>)> {
                 c.executors = vec![3];
                 c.closers = vec![0, 3];
                 c.blocks = 3;
+                c.purse = 4;
+                c.funds = vec![vec![(0, 2)]];
+                out.push((c, None));
+            }
+            // a multisig configured with a voting period of zero: whatever Propose does, no deposit may get stuck
+            for per in [Per::H(0), Per::T(0)] {
+                let mut c = Cfg::base(&format!("C15/A1,C3/count3/native/refund=true/zero-voting-period-{}", if per == Per::H(0) { "height" } else { "time" }), true);
+                c.props = p.clone();
+                c.voters = vec![(0, 1), (2, 3)];
+                c.th = Th::Count(3);
+                c.period = per;
+                c.deposit = Dep::Native { amount: 2, refund: true };
+                c.max_props = 2;
+                c.latest = vec![LatestA::Unset, LatestA::Never];
+                c.proposers = vec![0, 2];
+                c.votes = vec![VoteA::Yes, VoteA::No];
+                c.voters_acting = vec![0, 2];
+                c.executors = vec![0, 3];
+                c.closers = vec![0, 3];
+                c.blocks = 2;
                 c.purse = 4;
                 c.funds = vec![vec![(0, 2)]];
                 out.push((c, None));
